@@ -461,7 +461,7 @@ theorem tbl_svcInsert (s : State) (v : Svc) (hv : v.modify = i) : Tbl1 i s (svcI
 
 /-! ### the ladder instance and `apply` -/
 
-theorem tbl_closed (i : Nat) (s0 : State) : PrimClosed i (fun _ => True) (fun _ _ _ => True) (Tbl1 i s0) where
+theorem tbl_closed (i : Nat) (s0 : State) : PrimClosed i (fun _ => True) (fun _ _ _ => True) (fun _ => True) (Tbl1 i s0) where
   kvInsert s e he h := h.trans (tbl_kvInsert s e he)
   kvDelete s s' k hr h := h.trans (tbl_kvDelete hr)
   kvDeleteTree s p _ h := h.trans (tbl_kvDeleteTree s p)
@@ -473,17 +473,18 @@ theorem tbl_closed (i : Nat) (s0 : State) : PrimClosed i (fun _ => True) (fun _ 
   insertSession s x h := h.trans (tbl_insertSession s x)
   pqSet s s' id sess hr h := h.trans (tbl_pqSet hr)
   pqDelete s id h := h.trans (tbl_pqDelete s id)
-  nodeInsert s n hn h := h.trans (tbl_nodeInsert s n hn)
+  nodeInsert s n hn _ h := h.trans (tbl_nodeInsert s n hn)
+  nodeNames _ _ _ _ := trivial
   deleteCheckPre s node id x _ h := h.trans (tbl_deleteCheckPre s node id x)
-  deleteServicePost s node id v h := h.trans (tbl_deleteServicePost s node id v)
+  deleteServicePost s node id v _ h := h.trans (tbl_deleteServicePost s node id v)
   deleteNodePost s name h := h.trans (tbl_deleteNodePost s name)
   bumpServiceIdx s name h := h.trans (tbl_bump s name)
-  svcInsert s v hv _ h := h.trans (tbl_svcInsert s v hv)
+  svcInsert s v hv _ _ h := h.trans (tbl_svcInsert s v hv)
 
 /-- every command: whenever one of the six result tables changes, its index row is written -/
 theorem tbl_apply (s : State) (i : Nat) (c : Cmd) : Tbl1 i s (apply s i c).1 := by
   by_cases hc : ∀ u, c ≠ .reap u
-  · exact pc_apply (tbl_closed i s) c hc (fun _ _ => trivial) (fun _ _ => trivial) (.refl s)
+  · exact pc_apply (tbl_closed i s) c hc (fun _ _ => trivial) (fun _ _ => trivial) (fun _ _ => trivial) (.refl s)
   · have : ∃ u, c = .reap u := by
       cases c <;> simp at hc ⊢
     obtain ⟨u, rfl⟩ := this
